@@ -88,6 +88,8 @@ func main() {
 				c.Input = g.Input(schemaNode)
 				c.Dest = eng.ZeroD(schemaNode)
 			}
+			// the shared schema object serves two destination struct types (same fields, other positions)
+			c.AltDest = k%2 == 1
 			jobs = append(jobs, &job{c: c, schema: schema})
 		}
 	}
@@ -113,6 +115,7 @@ func main() {
 	}
 	for _, j := range jobs {
 		j.c.Schema.GoType() // the harness caches reflect types lazily: do it before the goroutines start
+		j.c.Schema.GoTypeAlt()
 	}
 	// NOTE: nothing has been executed yet. The concurrent phase runs FIRST, so that lazily initialised
 	// shared state is first touched concurrently; the reference results are computed afterwards, alone.
